@@ -1021,15 +1021,21 @@ impl CodegenContext {
                         Identifier::new(format!("$macro_{}", self.next_macro_scope_id));
                     self.next_macro_scope_id += 1;
 
+                    // The arguments are evaluated where the macro is invoked and not inside the macro's own scope,
+                    // since the names of the parameters would shadow the names the arguments refer to there
+                    let mut values = Vec::with_capacity(args.len());
+                    for (expr, _) in args.iter() {
+                        // Regardless if evaluation succeeds, we should create the macro argument symbol below, because
+                        // it will be undefined otherwise
+                        values.push(
+                            self.evaluate_expression(expr, true)?
+                                .unwrap_or(SymbolData::Placeholder),
+                        );
+                    }
+
                     self.with_scope(&macro_scope, None, |s| {
                         for (idx, arg_name) in def.args.iter().enumerate() {
-                            let (expr, _) = args.get(idx).unwrap();
-
-                            // Regardless if evaluation succeeds, we should create the macro argument symbol here, because
-                            // it will be undefined otherwise
-                            let value = s
-                                .evaluate_expression(expr, true)?
-                                .unwrap_or(SymbolData::Placeholder);
+                            let value = values.get(idx).unwrap().clone();
                             s.add_symbol(
                                 &arg_name.data,
                                 s.symbol(arg_name.span, value, SymbolType::MacroArgument),
